@@ -181,6 +181,18 @@ func IteU64(c bool, a, b uint64) uint64 {
 	return b
 }
 
+// And, Or, Not, Implies combine conditions without forking the exploration (plain
+// boolean operators natively).
+func And(a, b bool) bool     { return a && b }
+func Or(a, b bool) bool      { return a || b }
+func Not(a bool) bool        { return !a }
+func Implies(a, b bool) bool { return !a || b }
+
+// IdByte reports whether c is in the id alphabet [0-9a-z] (one condition, no fork).
+func IdByte(c byte) bool {
+	return Or(And(c >= '0', c <= '9'), And(c >= 'a', c <= 'z'))
+}
+
 // Unsupported marks a harness path the executor must report as inconclusive.
 func Unsupported(why string) { panic(control{what: "unsupported", label: why}) }
 
